@@ -141,6 +141,9 @@ pub enum TyperError {
     /// String types should not appear in main language
     StringNotSupported(SourceLocation),
 
+    /// 64-bit integer types are not part of the type system
+    Int64LiteralNotSupported(SourceLocation),
+
     /// A type modifier was used in a context where it is not allowed to be used
     ModifierNotSupported(ast::TypeModifier, SourceLocation, TypePosition),
 
@@ -819,6 +822,11 @@ impl CompileError for TyperExternalError {
                         "unexpected number of arguments to global variable attribute '{name}'"
                     )
                 },
+                *loc,
+                Severity::Error,
+            ),
+            TyperError::Int64LiteralNotSupported(loc) => w.write_message(
+                &|f| write!(f, "64-bit integer literals are not supported"),
                 *loc,
                 Severity::Error,
             ),
